@@ -22,7 +22,7 @@ CONSTANTS StreamTypes,      \* subset of {"unary","client_stream","server_stream
           ErrKinds,         \* subset of {"none","e0","e1","e3","ei"}
           PayloadCounts,    \* subset of 0..3
           Kits,             \* subset of {"none","lean","rich"}
-          Profiles,         \* subset of {"A","B","C"}
+          Profiles,         \* subset of {"A","B","C","D"}
           MaxLen,           \* number of rewrite steps per behaviour
           MaxDev,           \* number of deviations per behaviour (0 or 1)
           RunChecker        \* TRUE: run the checker machine on every pair (design check)
@@ -66,9 +66,10 @@ Query(kit) ==
     [] OTHER        -> <<>>
 
 Profile(p) ==
-  CASE p = "A" -> [t |-> 2000,  oc |-> <<>>,       ms |-> TRUE,  s |-> 200]
-    [] p = "B" -> [t |-> 200,   oc |-> <<13, 1>>,  ms |-> FALSE, s |-> Unset]
-    [] OTHER   -> [t |-> Unset, oc |-> <<13>>,     ms |-> TRUE,  s |-> Unset]
+  CASE p = "A" -> [t |-> 2000,  oc |-> <<>>,       ms |-> TRUE,  m |-> "oops", s |-> 200]
+    [] p = "B" -> [t |-> 200,   oc |-> <<13, 1>>,  ms |-> FALSE, m |-> "",     s |-> Unset]
+    [] p = "D" -> [t |-> 2000,  oc |-> <<>>,       ms |-> TRUE,  m |-> "",     s |-> 200]   \* a message that is specified - as the empty string
+    [] OTHER   -> [t |-> Unset, oc |-> <<13>>,     ms |-> TRUE,  m |-> "oops", s |-> Unset]
 
 EmptyInfo == [h |-> <<>>, t |-> Unset, q |-> <<>>, rq |-> <<>>]
 FirstReqs(st) == IF st \in {"client_stream", "half_duplex"} THEN <<"r1", "r2", "r3">> ELSE <<"r1">>
@@ -83,7 +84,7 @@ ExpCode == 10
 
 BaseErr(ek, st, kit, pr) ==
   IF ek = "none" THEN NoErr
-  ELSE [on |-> TRUE, code |-> ExpCode, ms |-> pr.ms, m |-> IF pr.ms THEN "oops" ELSE "",
+  ELSE [on |-> TRUE, code |-> ExpCode, ms |-> pr.ms, m |-> pr.m,
         det |-> CASE ek = "e0" -> <<>>
                   [] ek = "e1" -> <<DM("d1")>>
                   [] ek = "e3" -> <<DM("d1"), DM("d2"), DM("d3")>>
@@ -234,7 +235,9 @@ ErrRW(x, a, tcx) ==
       \cup {sub("code.bad" \o At(c), TRUE, "code", [e EXCEPT !.code = c], Tag("err.code", "", 0, "")) : c \in BadCodes(tcx.oc)}
       \cup (IF x.e.ms
               THEN {sub("msg.alter", TRUE, "msg", [e EXCEPT !.m = @ \o "~"], Tag("err.msg", "", 0, "")),
-                    sub("msg.drop", TRUE, "msg", [e EXCEPT !.ms = FALSE, !.m = ""], Tag("err.msg", "", 0, ""))}
+                    \* (an absent message reads as the empty string: dropping it deviates unless "" is what was specified)
+                    sub("msg.drop", x.e.m # "", "msg", [e EXCEPT !.ms = FALSE, !.m = ""],
+                        IF x.e.m # "" THEN Tag("err.msg", "", 0, "") ELSE NoTag)}
               ELSE {sub("msg.any", FALSE, "msg", [e EXCEPT !.ms = TRUE, !.m = "whatever"], NoTag)})
       \cup {dstruct("det.drop" \o At(k), SeqRemove(e.det, k), cntTag(n - 1)) : k \in 1..n}
       \cup {dstruct("det.dup" \o At(k), SeqDup(e.det, k), cntTag(n + 1)) : k \in 1..n}
